@@ -749,6 +749,38 @@ namespace R
                if( catches( op, r.k ) ) return { NESTED, 0, a, pos, pos, r.k };
                return r;
             }
+            case OPT_ONE_A: return ( pos < end && ch( pos ) == 'a' ) ? ok( pos + 1 ) : ok( pos );
+            case AT_ONE_A: return ( pos < end && ch( pos ) == 'a' ) ? ok( pos ) : fail();
+            case NOT_AT_ONE_A: return ( pos < end && ch( pos ) == 'a' ) ? fail() : ok( pos );
+            case ACTION_ALT:
+            case CONTROL_ALT: return A( pos );  // [Equivalent] to seq< R... > with respect to matching
+            case RAW1: {
+               // opening long bracket, then until< at close, Contents >, then the closing bracket
+               int q = pos;
+               if( !( q < end && ch( q ) == '[' ) ) return fail();
+               ++q;
+               int n = 0;
+               while( q < end && ch( q ) == '=' ) {
+                  ++q;
+                  ++n;
+               }
+               if( !( q < end && ch( q ) == '[' ) ) return fail();
+               ++q;
+               const int nl = eol_len( q, end );
+               if( nl > 0 ) q += nl;
+               return G( [ = ]( int z ) {
+                  for( ;; ) {
+                     if( --rfuel < 0 ) throw Diverge{ 2, self, z };
+                     bool close = ( z + n + 2 <= end && ch( z ) == ']' && ch( z + n + 1 ) == ']' );
+                     for( int i = 0; close && i < n; ++i ) close = ( ch( z + 1 + i ) == '=' );
+                     if( close ) return ok( z + n + 2 );
+                     Res r = G( A, z );
+                     if( r.k != OK ) return r;
+                     if( r.pos == z ) throw Diverge{ 1, self, z };
+                     z = r.pos;
+                  }
+               }, q );
+            }
             case ENABLE: return ev( a, pos, end, am.with_am( 1 ) );
             case STATE: {  // state< LogState, R >: new state for R; success( in, outer... ) iff R matched, whatever the apply mode
                const int id = st_next++;
